@@ -23,3 +23,4 @@ func TestC06(t *testing.T) { simkit.Main(t, HarnessC06) }
 func TestC20(t *testing.T) { simkit.Main(t, HarnessC20) }
 func TestC17(t *testing.T) { simkit.Main(t, HarnessC17) }
 func TestC18(t *testing.T) { simkit.Main(t, HarnessC18) }
+func TestC16(t *testing.T) { simkit.Main(t, HarnessC16) }
